@@ -132,7 +132,8 @@ pub fn gen_norm(rng: &mut Rng, idx: usize) -> Case {
     let _ = idx;
     // MANY features (1 case in 60): more than a hundred features whose events interleave freely, so that dozens of
     // finished features sit buffered behind the one at the head of the output and are flushed by a single event
-    let many = idx > 0 && rng.chance(1, 60);
+    // (capped in long runs: each such case costs about half a second on the model side)
+    let many = idx > 0 && idx < 12_000 && rng.chance(1, 60);
     let specs = if many {
         let mut v = vec![];
         while v.len() < 90 { v = gen_catalog_specs(rng, 150); }
